@@ -64,6 +64,18 @@ def run(ctx):
             ctx.unrecognised('pipeline', 'interface::build_operator_tree', 'missing', 'build_operator_tree not found')
         else:
             pipeline(ctx, prog, bot, None)
+    # "one evaluator": the entry points reach two root evaluators (shared and exclusive context); they are views of one evaluator only if
+    # both are the same walk - every child evaluated in order, first error returned, then the operator applied to all values (the C08
+    # R8.1-R8.3 analysis of each, reported here). An immutable evaluator that skips the discarded elements of a chain makes the
+    # `_with_context` family disagree with `eval` and the `_mut` family on errors of those elements.
+    from rules.c08 import evaluator
+    from rules.c05 import _Renamed
+    for name, opname in (('eval_with_context', 'eval'), ('eval_with_context_mut', 'eval_mut')):
+        f = prog.fn('tree::Node::<NumericTypes>::' + name)
+        if f is None:
+            ctx.unrecognised('one-walk', 'Node::' + name, 'missing', 'evaluator not found')
+            continue
+        evaluator(_Renamed(ctx, 'one-walk'), prog, f, name, opname)
 
 
 def _match(pat, term, var):
